@@ -30,6 +30,7 @@ type lspCtl struct {
 	calls  []string
 	fail   map[string]bool // op name -> fail (one shot per Update; cleared by reset)
 	gate   func(tid int, op string) // nil = free running
+	xkind  int                      // which damage fault X does
 }
 
 func (c *lspCtl) record(op string) {
@@ -66,6 +67,29 @@ func (c *lspCtl) setFaults(ops string) {
 
 var errInjected = errors.New("injected storage failure")
 
+// corruptRead is what a damaged store returns instead of the stored checkpoint b (fault letter X).
+func corruptRead(b []byte, kind int) []byte {
+	c := append([]byte{}, b...)
+	switch kind % 5 {
+	case 0:
+		return c[:len(c)/2] // cut short
+	case 1:
+		if len(c) > 3 {
+			c[3] ^= 0x01 // the origin line differs: no longer this log's text
+		}
+		return c
+	case 2:
+		if i := strings.Index(string(c), "\n\n"); i >= 0 && i+12 < len(c) {
+			c[i+12] ^= 0x20 // inside the first signature line
+		}
+		return c
+	case 3:
+		return []byte{}
+	default:
+		return []byte("\x00\xff garbage \n")
+	}
+}
+
 type wrapLSP struct {
 	inner persistence.LogStatePersistence
 	ctl   *lspCtl
@@ -73,9 +97,17 @@ type wrapLSP struct {
 }
 
 func (w *wrapLSP) Init() error             { return w.inner.Init() }
-func (w *wrapLSP) Logs() ([]string, error) { return w.inner.Logs() }
+func (w *wrapLSP) Logs() ([]string, error) {
+	if w.ctl.failing("L") {
+		return nil, errInjected
+	}
+	return w.inner.Logs()
+}
 func (w *wrapLSP) ReadOps(id string) (persistence.LogStateReadOps, error) {
 	w.ctl.record("R")
+	if w.ctl.failing("r") {
+		return nil, errInjected
+	}
 	r, err := w.inner.ReadOps(id)
 	if err != nil {
 		return nil, err
@@ -131,6 +163,9 @@ func (x *wrapWrite) GetLatest() ([]byte, error) {
 		return nil, errInjected
 	}
 	b, err := x.inner.GetLatest()
+	if err == nil && x.w.ctl.failing("X") {
+		b = corruptRead(b, x.w.ctl.xkind) // the store hands back damaged bytes, without an error
+	}
 	if x.w.ctl.gate != nil {
 		x.w.ctl.gate(x.w.tid(), "G'")
 	}
@@ -382,9 +417,13 @@ func scenarioFault(t *traceWriter, rng *rand.Rand) {
 		{"fork", 3, 3, 7, fk, func() [][]byte { return fk.consistency(3, 7) }},
 		{"sameSizeFork", 5, 5, 5, fk, func() [][]byte { return [][]byte{} }},
 		{"badSig", 3, 3, 7, tr, func() [][]byte { return tr.consistency(3, 7) }},
+		// the placeholder branch of Update (submitted size 0) has its own sign/Set/return sequence
+		{"zeroFirst", -1, 0, 0, tr, func() [][]byte { return [][]byte{} }},
+		{"zeroRefresh", 0, 0, 0, tr, func() [][]byte { return [][]byte{} }},
+		{"zeroProof", 0, 0, 0, tr, func() [][]byte { return tr.consistency(3, 7) }},
 	}
 	// interface-level fault sets: every single fault and every pair; N = a signer fails
-	ifaceFaults := []string{"", "W", "R", "S", "C", "N", "WR", "WS", "RS", "RC", "SC", "WC", "SN", "RN", "CN", "WRSC"}
+	ifaceFaults := []string{"", "W", "R", "S", "C", "N", "WR", "WS", "RS", "RC", "SC", "WC", "SN", "RN", "CN", "WRSC", "X", "X", "X", "X", "X", "XC", "XS"}
 	drvFaults := [][]string{{}, {"begin"}, {"query"}, {"next"}, {"exec"}, {"commit"}, {"rollback"}, {"query", "rollback"}, {"next", "rollback"}, {"exec", "rollback"}, {"commit", "rollback"}, {"begin", "query"}, {"exec", "commit"}}
 	if !thorough() {
 		drvFaults = drvFaults[:10]
@@ -428,6 +467,7 @@ func scenarioFault(t *traceWriter, rng *rand.Rand) {
 		drvCtl.take()
 		s.faults = iface
 		s.ctl = ctl
+		ctl.xkind = caseNo
 		s.useDrv = storeKind == "sqldrv"
 		s.drvFaults = drv
 		s.signFail = &signFail
@@ -453,6 +493,9 @@ func scenarioFault(t *traceWriter, rng *rand.Rand) {
 				stored = st.curSize
 			}
 			size := stored + 2
+			if st.has && stored == 0 {
+				size = 0 // an honest refresh: growth from a stored size 0 is the known finding F2, not a storage matter
+			}
 			pr := [][]byte{}
 			if stored > 0 {
 				pr = cur.consistency(stored, size)
